@@ -74,6 +74,15 @@ def rule_b(R, ctx):
     enc = [c for c in eu.calls_to("re:Encode>::encode$") if field_path(simp_deep(v.arg(c, 0)))[-1:] == ["delete_set"]]
     ok = bool(enc) and bool(wb) and eu.cfg().dominates(wb[0].bb, enc[0].bb)
     R.ob("C07.b", eu, "then-delete-set", ok, "self.delete_set.encode(encoder) after the blocks: %s" % ok)
+    # ... and nothing else: the transaction's delete set ITSELF is written, whole, on every path — a set derived from it
+    # (filtered, diffed against the insert set, ...) omits deletions a follower has no other way to learn
+    all_enc = [c for c in eu.calls() if re.search(r"Encode>?::encode$", c.name) and c not in wb]
+    derived = [c for c in all_enc if c not in enc]
+    cond = [c for c in enc if v.guards(c.bb)]
+    R.ob("C07.b", eu, "delete-set-whole", len(enc) == 1 and not derived and not cond,
+         "exactly one delete-set write, of TransactionMut.delete_set itself, unconditional" if len(enc) == 1 and not derived and not cond else
+         "the delete set written is not always the transaction's own: %d write(s) of self.delete_set (%d conditional), %d of something else (%s)" %
+         (len(enc), len(cond), len(derived), [sshow(simp_deep(v.arg(c, 0, 10)), 5) for c in derived][:2]))
 
 
 def rule_c(R, ctx):
